@@ -4,6 +4,17 @@ HERE = os.path.dirname(os.path.abspath(__file__))
 BASE_CMD = "cd /repo && /venv/bin/python -m pytest -ra -q -p no:cacheprovider --timeout=900 --continue-on-collection-errors"
 
 CLAIMED = {
+ 'C18': dict(
+    text=("Proof (partial: textual path containment): every file-system-mutating call (os.unlink, shutil.rmtree, os.makedirs, shutil.copy2, shutil.copytree) "
+          "inside WorkspaceBuilder.{prepare_directory, manage_directory, cleanup_directory, backup_workspace, copytree_with_extension, run} receives a path "
+          "textually under options.workspace / its abspath; forced cleanup and backup cleanup delete only proper descendants of the workspace, never the "
+          "workspace directory itself and never a symlink TARGET (realpath is uninterpreted outside the copy); Lian.set_workspace_dir yields <given>/lian_workspace "
+          "or the given path when it already contains the default name. Containment closure properties are proved as string lemmas; an inventory obligation "
+          "pins the 20 mutating call sites of src/lian and the provenance of loader/taint/dump paths. Byte-identity of inputs and bounded copying are NOT "
+          "proved: a bounded stand-in runs the real preparation for several placements (incl. symlinks) and is reported under 'bounded'."),
+    note=("Trusted: os/shutil at string level (abspath/realpath/relpath/listdir/walk axioms, no '..' components, no chdir), lianvc + encoding, z3 5.1 + z3 4.8.12. "
+          "Outside: clang preprocessing helper, writes through DataModel.save/SFGDumper/print_and_write_flows (static provenance only)."),
+    design='§4 C18'),
  'C19': dict(
     text=("Proof, partly over an assumed contract: deductively verified on the real source are CallSite/CallPath (equality, hash, validity), "
           "PathTrie.{__init__,path_exists,remove_path}, TrieNode.__init__ and PathManager.{__init__,add_path,remove_path,path_exists}: the manager's "
